@@ -353,8 +353,8 @@ def _main(argv=None):
     tasks = []
     for name, sub in mod.SUBS.items():
         total = sub.quick if tier == 'quick' else sub.thorough
-        if not total:
-            continue
+        if not total or (sys.flags.optimize and not getattr(sub, 'opt_pass', True)):
+            continue        # (sub-checks that only drive other processes gain nothing from the optimized-interpreter pass)
         shards = sub.quick_shards if tier == 'quick' else sub.thorough_shards
         shards = max(1, min(shards, total))
         per = (total + shards - 1) // shards
